@@ -258,9 +258,9 @@ fn c13_primary_header_decode__complete() {
 // ensures  for the EMPTY buffer (and every buffer too short for the fixed header) the result is an error, never a
 //          panic.  Complete in the lengths involved (0); longer buffers go through the serde-derived decoders, which
 //          are out of CBMC's reach (DESIGN §3) and are covered by C03/C04's leaf contracts.
-// The decoder callee is replaced by a stub that records being reached and fails: for an empty buffer the entry
-// points must return their error BEFORE handing the buffer to the decoder (the decoder's own behaviour on short
-// buffers is C03/C04's bounded contract: Err(OutOfBounds)).
+// The decoder callee is replaced by a stub that fails: whether an entry point rejects the empty buffer itself or
+// hands it to the decoder is an implementation choice (the decoder's own behaviour on short buffers is C03/C04's
+// bounded contract: Err(OutOfBounds), no panic); what the property needs is "an error, never a panic" on the way there.
 static mut DECODER_REACHED: bool = false;
 fn stub_read_from_data(_data: &serialized::Data<'_, '_>) -> Result<(PrimaryHeader, u32), Error> {
     unsafe { DECODER_REACHED = true; }
@@ -279,7 +279,6 @@ fn c12_primary_header_read__empty() {
     let is_err = r.is_err();
     core::mem::forget(r);
     obl!("C12.primary_header_read.empty_buffer_is_an_error", is_err);
-    obl!("C12.primary_header_read.empty_buffer_never_reaches_the_decoder", unsafe { !DECODER_REACHED });
 }
 
 // @unit C12.from_raw_parts.empty props=C12 kind=complete fn=zbus::message::Message::from_raw_parts timeout=600
@@ -299,7 +298,6 @@ fn c12_from_raw_parts__empty() {
     let is_err = r.is_err();
     core::mem::forget(r);
     obl!("C12.from_raw_parts.empty_buffer_is_an_error", is_err);
-    obl!("C12.from_raw_parts.empty_buffer_never_reaches_the_decoder", unsafe { !DECODER_REACHED });
 }
 
 // ---- contract (C12): Message::body() --------------------------------------------------------------------------
